@@ -10,9 +10,11 @@ KEYS = ("st", "conn", "hs", "start", "finish", "refused")
 PID = "C05"
 
 
-def run(ck: Check, spec=None, keys=KEYS, what="connection LTS != implementation (lifecycle projection)", pid=PID):
+def run(ck: Check, spec=None, keys=KEYS, what="connection LTS != implementation (lifecycle projection)", pid=PID, timed=False):
     scen = connlts.pool(ck, pairs=ck.tier == "thorough")
-    results = connlts.run_pool(scen)
+    if timed:
+        scen = scen + connlts.noise_pool()
+    results = connlts.run_pool(scen, timed=timed)
     n_viol = 0
     dist = {"scenarios": len(scen), "steps": 0, "closed_at_end": 0, "connected_reached": 0, "events": {}}
     for (login, ops, tag), (lines, obs, info) in zip(scen, results):
